@@ -83,6 +83,18 @@ CLAIMED = {
             "Trusted: TLC, the row-labelled Item widget and canvas projection in vf/props/c07.py. Exceptions raised by keypress/mouse_event "
             "(not by render) are reported as DIVERGENCE, the property speaks of rendering.",
             "DESIGN.md §4 C07"),
+    "C08": ("TLA+ contract FocusTreeOps.tla over a flat node table (valid focus child, focus path, arrow-to-selectable, selectable-iff-child, "
+            "render-focus path); model FocusTree.tla (Pile of leaves / Columns under all bounded histories of arrows, assignments, deletions) "
+            "model-checked by TLC; TLC trace validation (FocusTreeTrace.tla) of histories on real nested Pile/Columns/GridFlow/Frame/Overlay/ListBox "
+            "with probe leaves",
+            "TLC checks the focus invariants of the navigation model in every reachable state and judges every action of every recorded history "
+            "on real containers (random nestings to depth 3; keys, presses, valid/invalid focus_position assignments, focus-path round trips, "
+            "contents insert/delete/slice-assign/clear, Frame header/footer replacement) for focus validity, IndexError on invalid positions, key "
+            "routing along the focus path, unchanged unhandled keys, arrows landing on selectable children, selectability after contents are set, "
+            "focus-flag rendering and path round trip.",
+            "Trusted: TLC, World.table() projection and probe leaves in vf/props/c08.py. Exceptions from keypress/mouse_event/render with empty "
+            "containers are DIVERGENCE (rendering is C01's subject).",
+            "DESIGN.md §4 C08"),
 }
 
 NOT_APPLICABLE = {}
